@@ -517,4 +517,64 @@ theorem resValue_nat (xs : List K) (zero : K) (order : Nat) (p : Nat) :
   unfold resI0
   simp
 
+/-! ### identity resampling -/
+
+theorem takeWhile_range'_lt (c : Nat) : ∀ (k s : Nat),
+    (List.range' s k).takeWhile (fun m => decide (m < c)) = List.range' s (min k (c - s)) := by
+  intro k
+  induction k with
+  | zero => intro s; simp
+  | succ k ih =>
+    intro s
+    rw [List.range'_succ]
+    by_cases h : s < c
+    · rw [List.takeWhile_cons_of_pos (by simpa using h), ih (s + 1)]
+      have : min (k + 1) (c - s) = min k (c - (s + 1)) + 1 := by omega
+      rw [this, List.range'_succ]
+    · rw [List.takeWhile_cons_of_neg (by simpa using h)]
+      have : min (k + 1) (c - s) = 0 := by omega
+      rw [this]; rfl
+
+theorem resExists_nat (xs : List K) (order : Nat) (m : Nat) :
+    resExists xs order (((m : Int) : K)) = decide (m < xs.length - order / 2) := by
+  have h := resExists_iff xs order (((m : Int) : K))
+  rw [resBase_nat] at h
+  unfold resI0 at h
+  have e : (resExists xs order (((m : Int) : K)) = true) ↔ m < xs.length - order / 2 := by
+    rw [h]; push_cast; omega
+  by_cases hm : m < xs.length - order / 2
+  · rw [decide_eq_true hm]; exact e.mpr hm
+  · have : ¬ resExists xs order (((m : Int) : K)) = true := fun hh => hm (e.mp hh)
+    rw [decide_eq_false hm]; exact Bool.eq_false_iff.mpr this
+
+theorem map_getD_range (xs : List K) (zero : K) (k : Nat) (hk : k ≤ xs.length) :
+    (List.range k).map (fun m => xs.getD m zero) = xs.take k := by
+  apply List.ext_getElem
+  · simp [hk]
+  · intro i h1 h2
+    simp only [List.length_map, List.length_range] at h1
+    simp [List.getD_eq_getElem?_getD, List.getElem?_eq_getElem (show i < xs.length by omega)]
+
+/-- identity resampling (`old = new`): the output is the input, up to the `order/2` samples whose
+    interpolation window would reach past the end -/
+theorem resampleSpec_identity (xs : List K) (order : Nat) (zero : K) (n : Nat) :
+    (resampleSpec xs (.num 1) order zero n).1 = (xs.take (xs.length - order / 2)).take n := by
+  unfold resampleSpec
+  simp only [mul_one]
+  have hmap : ((List.range (n + 1)).map (fun (m : Nat) => ((m : Int) : K))).takeWhile (resExists xs order)
+      = (List.range (min (n + 1) (xs.length - order / 2))).map (fun (m : Nat) => ((m : Int) : K)) := by
+    rw [List.takeWhile_map]
+    have : (resExists xs order ∘ fun (m : Nat) => ((m : Int) : K))
+        = fun m => decide (m < xs.length - order / 2) := by
+      funext m; exact resExists_nat xs order m
+    rw [this, List.range_eq_range', takeWhile_range'_lt, Nat.sub_zero, List.range_eq_range']
+  rw [hmap, ← List.map_take, List.take_range, List.map_map]
+  have hv : (resValue xs zero order ∘ fun (m : Nat) => ((m : Int) : K)) = fun m => xs.getD m zero := by
+    funext m
+    simp only [Function.comp, resValue_nat, extGet]
+    simp
+  rw [hv, map_getD_range _ _ _ (by omega), List.take_take]
+  congr 1
+  omega
+
 end ALV.C19
